@@ -111,7 +111,10 @@ XML256TableTranscoder::transcodeTo( const   XMLCh* const    srcData
         //  Get the next src char out to a temp, then do a binary search
         //  of the 'to' table for this entry.
         //
-        if ((nextOut = xlatOneTo(*srcPtr))!=0)
+        //  xlatOneTo() uses zero for 'not found', so U+0000 (which is byte
+        //  zero in the pages that have it) has to be recognised here.
+        //
+        if ((nextOut = xlatOneTo(*srcPtr))!=0 || (*srcPtr == 0 && fFromTable[0] == 0))
         {
             *outPtr++ = nextOut;
             srcPtr++;
@@ -154,6 +157,10 @@ bool XML256TableTranscoder::canTranscodeTo(const unsigned int toCheck)
     // The tables only hold BMP characters; don't let the value be truncated
     if (toCheck > 0xFFFF)
         return false;
+
+    // xlatOneTo() uses zero for 'not found': U+0000 is byte zero where present
+    if (toCheck == 0)
+        return (fFromTable[0] == 0);
 
     return (xlatOneTo((XMLCh)toCheck) != 0);
 }
